@@ -21,6 +21,7 @@ func init() {
 			c03CheckHeader(c)
 			// the control writer sits on Writer.Write / Flush: no frame leaves before Flush, one final frame then
 			writerMethodRules(c, "C08")
+			writerWriteRules(c, "C08")
 		},
 	})
 }
